@@ -31,20 +31,23 @@ Proof. exact keyed_deterministic. Qed.
 Print Assumptions C17_keyed_deterministic.
 
 (* every call site that draws through randn is keyed in this sense: Hutchinson loop, SLQ, default start vectors,
-   Nystrom sketch, the unkeyed sketches (randomized_svd, ...), AdaNys / select_rank loops *)
+   Nystrom sketch, the unkeyed sketches (randomized_svd, ...), AdaNys / select_rank loops, and LOBPCG once its start
+   block is drawn through randn (the np.random.normal variant is refuted below) *)
 Theorem C17_sites_keyed : forall (V Out : Type) (sha : Z -> Z),
   (forall S_ c s nz mi key (st0 : S_) fin, keyed V (hutch_site V Out sha c s nz mi key st0 fin)) /\
   (forall key nz f, keyed V (slq_site V Out key nz f)) /\
   (forall st key n f, keyed V (start_site V Out sha st key n f)) /\
   (forall key nz f, keyed V (nystrom_site V Out sha key nz f)) /\
   (forall nz f, keyed V (unkeyed_sketch_site V Out nz f)) /\
-  (forall n approx bad grow fuel r, keyed V (ada_site V Out sha n approx bad grow fuel r)).
+  (forall n approx bad grow fuel r, keyed V (ada_site V Out sha n approx bad grow fuel r)) /\
+  (forall nk f, keyed V (lobpcg_site_keyed V Out sha nk f)).      (* LOBPCG as repaired: start block through randn, key 42 *)
 Proof. intros V Out sha.
   exact (Logic.conj (fun S_ c s nz mi key st0 fin => hutch_site_keyed V Out sha c s nz mi key st0 fin)
         (Logic.conj (slq_site_keyed V Out)
         (Logic.conj (start_site_keyed V Out sha)
         (Logic.conj (nystrom_site_keyed V Out sha)
-        (Logic.conj (unkeyed_sketch_site_keyed V Out) (ada_site_keyed V Out sha)))))). Qed.
+        (Logic.conj (unkeyed_sketch_site_keyed V Out)
+        (Logic.conj (ada_site_keyed V Out sha) (lobpcg_site_keyed_keyed V Out sha))))))). Qed.
 Print Assumptions C17_sites_keyed.
 
 (* refutation for the pinned tree: the LOBPCG call site IS a draw from the global generator ... *)
